@@ -19,6 +19,7 @@ CONSTANTS
  Goals = {1, 2}
  Origins = {o}
  AdvKinds = {"tamper", "splice", "inject", "header", "plain"}
+ NodeRank <- RankDef
  AdvSrcs = {adv}
  TrackWire = TRUE
  UseIds = FALSE
